@@ -8,7 +8,7 @@ from ..pyutil import parents, is_self_attr
 
 META = {
     'title': 'Relation queries return exactly the declared relations; closures terminate',
-    'technique': 'termination-idiom classification of every while loop / recursion cycle; sibling cross-check of the three relation queries',
+    'technique': 'termination-idiom classification of every while loop / recursion cycle; sibling cross-check of the three relation queries (type filter read off the path facts of the statement variants); effect summaries of relation_paths, relations(), get_related() and the importer split',
     'explanation': (
         'Decides: R1 every `while` loop and every recursion cycle of wn/ matches a recorded termination idiom - (G) global '
         'visited set guarding every growth of the worklist (_Relatable.closure), (P) per-path visited sets that grow '
